@@ -437,7 +437,7 @@ def run_both(pid, mod, cases, rundir, tag="main", profile="release"):
     if len(impl) != len(cases):
         raise CorrBroken("the implementation side printed %d observation lines for %d cases (the code under test wrote to "
                          "stdout, or a case killed the harness)" % (len(impl), len(cases)), cases[len(pre):])
-    run_side(dexe, [cp, ip], cp, mp, stdin_cases=False)
+    run_side(dexe, [cp, ip], cp, mp, stdin_cases=False, timeout=int(os.environ.get("VERIF_DRIVER_TIMEOUT_S", "1500")))
     model = open(mp).read().split("\n")
     if model and model[-1] == "":
         model.pop()
